@@ -130,6 +130,7 @@ def run(ctx):
     gate_reported = 0
     for r, spec, mg in zip(gates, gate_specs, m_gate):
         limit, execs, code, stc, stl, hexecs, hcode, resolvers = r[5], r[6], r[7], r[8], r[9], r[10], r[11], r[13]
+        gexecs, gcode = (r[15], r[16]) if len(r) > 16 else ("na", "na")
         c = int(spec) if spec is not None else None
         if c is None:
             # no model: fall back on the stats the implementation itself recorded
@@ -151,6 +152,8 @@ def run(ctx):
             bad.append("exec-calls")
         if code != want_code or hcode != want_code:
             bad.append("error-code")
+        if gexecs != "na" and (gexecs != want_exec or gcode != want_code):
+            bad.append("get-transport")
         if over and resolvers != "0":
             bad.append("resolver-ran")
         if stc != str(c) and spec is not None:
@@ -162,13 +165,14 @@ def run(ctx):
             if gate_reported < 6:
                 gate_reported += 1
                 # Spec of the property: over the limit => nothing runs and rejected; at/below => not rejected for complexity
-                failing = (over and (execs != "0" or hexecs != "0" or resolvers != "0" or code != "COMPLEXITY_LIMIT_EXCEEDED" or hcode != "COMPLEXITY_LIMIT_EXCEEDED")) or \
+                failing = ("get-transport" in bad) or (over and (execs != "0" or hexecs != "0" or resolvers != "0" or code != "COMPLEXITY_LIMIT_EXCEEDED" or hcode != "COMPLEXITY_LIMIT_EXCEEDED")) or \
                           ((not over) and ("COMPLEXITY_LIMIT_EXCEEDED" in (code, hcode) or execs != "1" or hexecs != "1")) or \
                           ("stats-complexity" in bad) or ("stats-limit" in bad)
                 ctx.violation({"kind": "correspondence", "case_kind": "gate", "query": r[14], "customs": r[2], "vars": r[3], "limit": limit,
                                "complexity_by_definition": c, "class": cls, "differs": bad,
                                "impl": {"executor": {"exec_calls": execs, "code": code, "stats_complexity": stc, "stats_limit": stl, "resolver_calls": resolvers},
-                                        "http": {"exec_calls": hexecs, "code": hcode, "status": r[12]}},
+                                        "http": {"exec_calls": hexecs, "code": hcode, "status": r[12]},
+                                        "http_get": {"exec_calls": gexecs, "code": gcode}},
                                "expected": {"exec_calls": want_exec, "code": want_code},
                                "shape": {"part": "gate", "class": cls.split("+")[0], "differs": ",".join(bad)},
                                "replay": "operation `%s` (custom costs {%s}, variables {%s}) has complexity %d; with FixedComplexityLimit(%s) the server called Exec %s time(s) (HTTP: %s) and answered code %s (HTTP: %s); expected Exec x%s, code %s" % (
@@ -188,6 +192,32 @@ def run(ctx):
                            "shape": {"part": "malformed"},
                            "replay": "invalid operation `%s` reached Exec %s time(s) / answered %s" % (r[7], execs, code)})
 
+    # ---- metamorphic Spec: a selection added at the top level never lowers the complexity (monotone_add_selection_top)
+    monos = [r for r in rows if r[0] == "mono"]
+    mono_reported = 0
+    for r in monos:
+        branch["mono:" + ("equal" if r[2] == r[3] else "increased")] += 1
+        try:
+            dec = int(r[2]) > int(r[3])
+        except ValueError:
+            dec = True
+        if dec:
+            ndiv += 1
+            if mono_reported < 4:
+                mono_reported += 1
+                ctx.violation({"kind": "spec", "case_kind": "monotone", "customs": r[1], "before": r[2], "after": r[3],
+                               "query_before": r[4], "query_after": r[5], "shape": {"part": "monotone-top"},
+                               "replay": "adding a top-level selection lowered the complexity from %s to %s: `%s` -> `%s` with custom costs {%s}" % (r[2], r[3], r[4], r[5], r[1])})
+    # ---- the Lean witness (monotone_add_selection_witness) replayed on the implementation: 9 then 8, as the definition says
+    for r in [r for r in rows if r[0] == "witness"]:
+        branch["witness:nonmonotone-custom"] += 1
+        if (r[2], r[3]) != ("9", "8"):
+            ndiv += 1
+            ctx.violation({"kind": "correspondence", "case_kind": "witness", "impl": [r[2], r[3]], "expected": ["9", "8"],
+                           "shape": {"part": "witness"},
+                           "replay": "Calculate on `%s` / `%s` with {%s} returned %s / %s; the definition (and the Lean witness) gives 9 / 8" % (r[4], r[5], r[1], r[2], r[3])},
+                          no_failing_input=False)
+
     # ---- a proof that no longer checks: look for a failing input, else say so
     if ok_extract and not proved:
         if not any(not nf for _, nf in ctx.violations):
@@ -206,13 +236,13 @@ def run(ctx):
         return xs[i] if len(xs) > i else None
 
     ctx.cov.update({
-        "evaluations": len(sas) + len(calcs) + len(gates) + len(bads),
+        "evaluations": len(sas) + len(calcs) + len(gates) + len(bads) + len(monos) + 1,
         "distinct_nontrivial": len(nontriv),
         "rule": "safeAdd: exhaustive 20x20 boundary grid (min, min+1, +-max/2, -1..3, 2^31, 2^32, max/2-1..max/2+2, max-2..max) + seeded pairs around the overflow boundary; "
-                "Calculate: 19 directed operations x 18+8 directed custom tables (+ custom pinned to children's cost -1/0/+1) + seeded random operations over 2 probe schemas "
+                "Calculate: 19 directed operations x 18+8 directed custom tables (+ custom pinned to children's cost -1/0/+1) + seeded random operations over 2 probe schemas + seeded random schemas "
                 "(fragments nested and reused, inline fragments with/without type condition, interfaces incl. one without implementors, unions, aliases, Int arguments literal/null/variable/absent with defaults, "
                 "@skip/@include, __schema/__type/__typename, mutations) x random custom tables; gate: every directed case at limit c-1/c/c+1 and random cases at c-1/c/c+1 + extreme limits, "
-                "through executor.New and through handler.New+transport.POST; malformed: mutated operations. Non-trivial = distinct case reaching a branch beyond default costs "
+                "through executor.New, handler.New+transport.POST and handler.New+transport.GET (operationName given / omitted, multi-operation documents); seeded random schemas; metamorphic pairs (one selection added at the top level); malformed: mutated operations. Non-trivial = distinct case reaching a branch beyond default costs "
                 "(custom used/ignored/negative/equal, saturation, interface, fragment, variable, __Schema skip), every safeAdd pair and every gate case",
         "input_distribution": dict(branch),
         "kinds": dict(kinds),
